@@ -9,6 +9,7 @@ import (
 	"encoding/json"
 	"fmt"
 	"os"
+	"strings"
 	"sync"
 	"time"
 
@@ -609,7 +610,9 @@ func explore(n, vi int) {
 		for _, m := range fieldMuts(honest.Txs[i]) {
 			r.Seen("fields", m.Path)
 			try(kase{Kind: "field", I: i, Field: m.Path, FKind: m.Kind})
-			try(kase{Kind: "field-rebuild", I: i, Field: m.Path, FKind: m.Kind})
+			if !strings.HasPrefix(m.Path, "signature") { // hashes ignore the signature: re-chaining would change nothing
+				try(kase{Kind: "field-rebuild", I: i, Field: m.Path, FKind: m.Kind})
+			}
 		}
 	}
 	try(kase{Kind: "head-fee-1"})
